@@ -56,8 +56,47 @@ def judge(T, frames, stream, control, line, s, pub):
             k += 1
 
 
+def pong_write_faults(T):
+    """The write of the automatic pong fails (timeout, at once or after a short write): the receive call that consumed the ping must not
+    go on reading as if the pong had left -- within that call nothing is read after the ping unless its complete pong was written.
+    (Judged directly; the model has no write faults.)"""
+    from sim.sock import connected_ws
+    from corr.common import exn_class
+    text, ping = server_frame(1, b"hello"), server_frame(9, b"are-you-there")
+    f0, f1 = bytes([0x01, 2]) + b"ab", bytes([0x80, 2]) + b"cd"
+    for stream_name, stream in (("ping,text", ping + text), ("frag,ping,cont", f0 + ping + f1), ("ping,ping,text", ping + ping + text)):
+        for part in (0, 1, 6):
+            for nth in ((1, 2) if stream_name == "ping,ping,text" else (1,)):
+                for call in ("recv", "recv_data", "recv_data_frame(True)"):
+                    ws, s = connected_ws([("D", stream)])
+                    base = getattr(s, "send_calls", 0)
+                    s.send_faults = {base + nth: (part, "timeout")}
+                    s.settimeout(1.0)
+                    for _ in range(4):          # the call in which the faulted write happens (control frames reported: one ping per call)
+                        mark = len(s.log)
+                        try:
+                            r = {"recv": ws.recv, "recv_data": ws.recv_data, "recv_data_frame(True)": lambda: ws.recv_data_frame(True)}[call]()
+                            res = "ok"
+                        except Exception as e:
+                            res = "raise:" + exn_class(e)
+                        log = s.log[mark:]
+                        fail_at = next((i for i, e in enumerate(log) if e[0] == "wfail"), None)
+                        if fail_at is not None or res != "ok":
+                            break
+                    reads_after = [e for e in log[fail_at + 1:] if e[0] == "r"] if fail_at is not None else []
+                    T.case(("pong-write-fault", stream_name, part, nth, call), nontrivial=True, bucket="pong-write-fault",
+                           sample={"stream": stream_name, "bytes_before_fault": part, "call": call, "result": res})
+                    if fail_at is None or reads_after:
+                        T.fail("spec", {"kind": "pong-write-fault", "stream": stream_name, "part": part, "nth": nth, "call": call},
+                               "the call stops at the failed pong write (nothing read after it)", f"result={res}, {len(reads_after)} transport reads after the failed write",
+                               {"site": "recv_data_frame", "cls": "read-before-pong", "write_fault": True},
+                               what="a receive call read further although the pong for the ping it had consumed was not written (its write timed out)")
+                        return
+
+
 def run(ctx):
     T = Tally()
+    pong_write_faults(T)
     rng = random.Random(ctx.seed)
     runs = []
     for i, frames in enumerate(gen(ctx.tier, rng)):
@@ -117,7 +156,7 @@ def run(ctx):
                 break
         T.validated = len(outs)
     return T.result(
-        "every ping payload length 0..125; 0-4 (6) pings inserted at every kind of position (before, between, inside "
+        "pong write faults (timeout at once / after 1 / after 6 bytes: the call stops at the failed write); every ping payload length 0..125; 0-4 (6) pings inserted at every kind of position (before, between, inside "
         "fragmented messages) of random legal streams with unsolicited pongs; with and without control-frame reporting, "
         "per-fragment mode on a third, trace logging on a quarter; writes compared byte for byte with the RFC encoding of the expected pongs (key "
         "from the scenario's key stream) and the interleaved transport log checked for 'pong before the next read'; whole "
@@ -131,6 +170,10 @@ def search(ctx):
 
 
 def replay(ctx, sc):
+    if sc.get("kind") == "pong-write-fault":
+        T = Tally()
+        pong_write_faults(T)
+        return T.failures[0] if T.failures else None
     stream = bytes.fromhex(sc["stream"])
     if sc.get("kind") == "long-ping-run":
         return {"note": "rerun ./check C07 quick (the scenario is fixed: 1400 pings between two text messages)"}
